@@ -50,6 +50,13 @@ pub fn gen(
 
     // The HIR backends used to be named "c2", "js2", etc
     let target_language = target_language.strip_suffix('2').unwrap_or(target_language);
+    // `py-nanobind` is another spelling of `nanobind`: attributes (`#[diplomat::attr(nanobind, ...)]`) and
+    // configuration keys (`nanobind.lib_name`) use the one canonical name
+    let target_language = if target_language == "py-nanobind" {
+        "nanobind"
+    } else {
+        target_language
+    };
     let mut attr_validator = hir::BasicAttributeValidator::new(target_language);
     attr_validator.support = match target_language {
         "c" => c::attr_support(),
